@@ -81,7 +81,7 @@ func c09Dataset(r *rand.Rand, nkeys, bigN int) (cmds []Cmd, keys []string) {
 }
 
 // c09Writer generates writes aimed at the dataset while the rewrite runs.
-func c09Writer(r *rand.Rand, client int, keys []string, n int) []Cmd {
+func c09Writer(r *rand.Rand, client int, keys []string, n int, noRename bool) []Cmd {
 	g := defaultGenCfg(client)
 	g.keys = keys
 	g.exVals = []string{"1000", "1.5", "700.5"}
@@ -113,12 +113,14 @@ func c09Writer(r *rand.Rand, client int, keys []string, n int) []Cmd {
 			p = append(p, Cmd{Args: []string{"PERSIST", k, id}})
 		case x < 15:
 			p = append(p, Cmd{Args: []string{"JSET", k, "j1", []string{"a", "b.c", "new"}[r.Intn(3)], fmt.Sprint(g.uniq())}})
-		case x < 16:
+		case x < 16 && !noRename:
 			p = append(p, Cmd{Args: []string{"JDEL", k, "j1", []string{"a", "b.c", "new"}[r.Intn(3)]}})
 		case x < 17:
 			p = append(p, Cmd{Args: []string{"DROP", k}})
-		case x < 20:
+		case x < 20 && !noRename:
 			p = append(p, Cmd{Args: []string{[]string{"RENAME", "RENAMENX"}[r.Intn(2)], k, pick(r, keys)}})
+		case x < 20:
+			p = append(p, Cmd{Args: []string{"DEL", k, id}})
 		case x < 21:
 			p = append(p, Cmd{Args: []string{"PDEL", k, []string{"i00*", "*", "i01*"}[r.Intn(3)]}})
 		case x < 22:
@@ -145,6 +147,10 @@ func runC09(w *World) {
 	}
 	nkeys := 9 + w.knob("nkeys", 6)
 	bigN := 40 + w.knob("bign", 61)
+	if w.deep() && w.knob("deep", 3) == 0 {
+		nkeys = 17 + w.knob("nkeys2", 20) // three or more key batches
+		bigN = 100 + w.knob("bign2", 250)
+	}
 	var keys []string
 	pre := w.program("dataset", func(r *rand.Rand) []Cmd {
 		c, _ := c09Dataset(r, nkeys, bigN)
@@ -175,12 +181,18 @@ func runC09(w *World) {
 		return
 	}
 
+	// half of the runs leave out the commands of the open findings (RENAME/RENAMENX/JDEL during
+	// a rewrite), so that no violation in them can be attributed to a known finding
+	noRename := w.knob("norename", 2) == 1
 	nw := 1 + w.knob("writers", 3)
 	per := []int{4, 8, 16}[w.knob("per", 3)]
+	if w.deep() && w.knob("deepw", 3) == 0 {
+		per = 40
+	}
 	var writers []*Actor
 	for i := 0; i < nw; i++ {
 		i := i
-		prog := w.program(fmt.Sprintf("w%d", i+1), func(r *rand.Rand) []Cmd { return c09Writer(r, i+1, keys, per) })
+		prog := w.program(fmt.Sprintf("w%d", i+1), func(r *rand.Rand) []Cmd { return c09Writer(r, i+1, keys, per, noRename) })
 		a := w.addActor(n, simAddr(fmt.Sprintf("127.0.0.1:%d", 50001+i)), prog)
 		a.onReply = func(op *Op) { hc.onReply(op, a.end.c.name) }
 		writers = append(writers, a)
@@ -249,7 +261,8 @@ func runC09(w *World) {
 	prevOnEntry := hc.lm.onEntry
 	hc.lm.onEntry = func(e *lmEntry, before, after *Model) {
 		prevOnEntry(e, before, after)
-		if c := lower(e.args[0]); (c == "rename" || c == "renamenx") && n.inst.srv.shrinking && len(e.args) == 3 {
+		// (a later rename of an affected collection carries the damage along)
+		if c := lower(e.args[0]); (c == "rename" || c == "renamenx") && len(e.args) == 3 && (n.inst.srv.shrinking || renamed[e.args[1]] || renamed[e.args[2]]) {
 			renamed[e.args[1]] = true
 			renamed[e.args[2]] = true
 			w.stat("probe.rename_during_rewrite", 1)
@@ -285,20 +298,26 @@ func runC09(w *World) {
 		// attributed to it only when every differing collection was named by such a rename.
 		class := "C09/recovered"
 		if len(renamed) > 0 || len(jdeled) > 0 {
-			dk, hd := diffKeys(hc.lm.states[hi], d)
-			allRen, allJdel := !hd, !hd
-			for _, k := range dk {
-				if !renamed[k] {
-					allRen = false
+			// attributed to a known finding only if, for some admissible prefix, every differing
+			// collection was named by such a rename / JDEL
+			for k := hi; k >= lo && class == "C09/recovered"; k-- {
+				dk, hd := diffKeys(hc.lm.states[k], d)
+				all, anyRen := !hd, false
+				for _, x := range dk {
+					if !renamed[x] && !jdeled[x] {
+						all = false
+					}
+					if renamed[x] {
+						anyRen = true
+					}
 				}
-				if !jdeled[k] {
-					allJdel = false
+				if all && len(dk) > 0 {
+					if anyRen {
+						class = "C09/recovered-rename"
+					} else {
+						class = "C09/recovered-jdel"
+					}
 				}
-			}
-			if allRen && len(renamed) > 0 {
-				class = "C09/recovered-rename"
-			} else if allJdel && len(jdeled) > 0 {
-				class = "C09/recovered-jdel"
 			}
 		}
 		w.violate(class, "%s: the recovered dataset is not the model after any log prefix in [%d,%d] (every acknowledged write is within the first %d entries); against the full log: %v; renames during the rewrite touched %v; JDEL during the rewrite touched %v",
